@@ -352,7 +352,8 @@ def synthetic_qpoints(nq, nmodes, variant):
             k = slot[0]
             mag = ((k * 7919) % 999983) / 1e6        # bijection on 1..999982 -> distinct 6-decimal magnitudes
             if mag not in used:                      # ... that are not a q coordinate or a frequency either
-                return -mag if (k * k + k // 3) % 2 else mag
+                # sign from a multiplicative hash: not periodic in the slot position (6 numbers per line)
+                return -mag if ((k * 2654435761) >> 11) & 1 else mag
 
     qp = []
     for q, freqs in heads:
